@@ -461,6 +461,54 @@ func checkC17(c *Check) {
 				}
 				return true
 			})
+			// ... and reads no variable that lives across iterations and that the loop keeps assigning (its
+			// value when the goroutine gets to read it is the one of some later iteration)
+			var carried []string
+			if loopBody := enclosingLoopBody(fs.Decl.Body, g); loopBody != nil {
+				assignedInLoop := map[types.Object]bool{}
+				ast.Inspect(loopBody, func(m ast.Node) bool {
+					switch x := m.(type) {
+					case *ast.AssignStmt:
+						if x.Tok == token.DEFINE {
+							return true
+						}
+						for _, l := range x.Lhs {
+							if id, ok := ast.Unparen(l).(*ast.Ident); ok {
+								if o := info.Uses[id]; o != nil {
+									assignedInLoop[o] = true
+								}
+							}
+						}
+					case *ast.IncDecStmt:
+						if id, ok := ast.Unparen(x.X).(*ast.Ident); ok {
+							if o := info.Uses[id]; o != nil {
+								assignedInLoop[o] = true
+							}
+						}
+					}
+					return true
+				})
+				seen := map[types.Object]bool{}
+				ast.Inspect(lit.Body, func(m ast.Node) bool {
+					id, ok := m.(*ast.Ident)
+					if !ok {
+						return true
+					}
+					v, ok := info.Uses[id].(*types.Var)
+					if !ok || v.IsField() || isPkgLevel(v) || seen[v] {
+						return true
+					}
+					if v.Pos() >= loopBody.Pos() && v.Pos() <= loopBody.End() {
+						return true // declared inside the loop: per iteration
+					}
+					if assignedInLoop[v] {
+						seen[v] = true
+						carried = append(carried, c.P.pos(id.Pos())+": "+v.Name()+" (declared outside the loop, assigned in it)")
+					}
+					return true
+				})
+			}
+			c.add("O-C17.3", "goroutine in "+c.P.abbrev(fs.Obj.FullName())+" reads no loop-carried variable", "the goroutine body reads no variable that is declared outside the launch loop and assigned inside it (per-certificate state must be per-iteration)", len(carried) == 0, c.P.pos(g.Pos()), carried...)
 			c.add("O-C17.3", "goroutine in "+c.P.abbrev(fs.Obj.FullName())+" calls no captured function value", "the goroutine body calls only named functions, methods of its own values and its parameters - never a function value captured from the spawner (such as a shared cancel func), through which one exchange could affect another", len(bad) == 0, c.P.pos(g.Pos()), bad...)
 			return true
 		})
@@ -694,4 +742,23 @@ func perIterationClosure(fs *FuncSrc, info *types.Info, g *ast.GoStmt, v *types.
 		return true
 	})
 	return ok && n > 0
+}
+
+// enclosingLoopBody: the body of the innermost for/range statement around the go statement.
+func enclosingLoopBody(fn *ast.BlockStmt, g *ast.GoStmt) *ast.BlockStmt {
+	var loopBody *ast.BlockStmt
+	ast.Inspect(fn, func(n ast.Node) bool {
+		var body *ast.BlockStmt
+		switch x := n.(type) {
+		case *ast.ForStmt:
+			body = x.Body
+		case *ast.RangeStmt:
+			body = x.Body
+		}
+		if body != nil && g.Pos() >= body.Pos() && g.End() <= body.End() {
+			loopBody = body
+		}
+		return true
+	})
+	return loopBody
 }
